@@ -684,3 +684,28 @@ Proof.
   exists [plain (VTyped CTuple)], (match_seq [EWild] true [] ), (CIsInstance [CInt]), (OTuple [LInt 1; LInt 2]).
   vm_compute. repeat split.
 Qed.
+
+(* ------------------------------------------------------------------ *)
+(* `len(x) in C` / `len(x) not in C` (round 5) *)
+Lemma lenin_keeps_value : forall V ns pol o,
+  member o V = true -> holds_lenin ns o = Some pol -> member o (lenin_narrow V ns pol) = true.
+Proof.
+  intros V ns pol o Hm Hh. apply member_in in Hm. destruct Hm as [sv [Hin Hs]].
+  unfold lenin_narrow, lenin_narrow_with. apply (member_flat_map o _ V sv Hin).
+  unfold holds_lenin in Hh. destruct (len_of o) as [k|] eqn:Hk; [|discriminate]. injection Hh as Hh.
+  unfold pred_lenin_with. destruct (len_of_value sv) as [kz|] eqn:El.
+  - rewrite (len_of_value_sound sv o kz k El Hs Hk). cbv zeta. rewrite Hh.
+    destruct pol; cbn [negb]; rewrite member_single; exact Hs.
+  - rewrite member_single. exact Hs.
+Qed.
+
+(* the round-5 seed: the negative operator of `in` computes the same as the positive one *)
+Lemma lenin_seeded_rule_refuted :
+  exists V ns pol o, member o V = true /\ holds_lenin ns o = Some pol /\
+    member o (lenin_narrow_with false V ns pol) = false.
+Proof.
+  exists [plain (VTuple [(false, TIntE)]); plain (VTuple [(false, TIntE); (false, TIntE)]);
+          plain (VTuple [(false, TIntE); (false, TIntE); (false, TIntE)])],
+         [1%Z; 2%Z], false, (OTuple [LInt 7; LInt 8; LInt 9]).
+  vm_compute. repeat split.
+Qed.
